@@ -52,7 +52,7 @@ theorem call_not_settled {s : State} (hi : Inv s) {c : Call} (hc : c ∈ s.calls
   exact ⟨e, ⟨he, hcall⟩, rfl⟩
 
 theorem cleanup_obsSuccess (z : State) : (cleanupCalls (cleanupBatches z)).obsSuccess = z.obsSuccess := by
-  obtain ⟨fm, hfm⟩ := cleanupCalls_core (cleanupBatches z)
+  obtain ⟨fm, er, hfm⟩ := cleanupCalls_core (cleanupBatches z)
   rw [hfm]
   unfold cleanupCallsCore
   simp only [foldl_refundCall_obsSuccess]
